@@ -25,6 +25,8 @@ import (
 
 var loopByTag = map[string]*core.Loop{}
 
+var enclosingBusy = map[*ssa.Function]bool{}
+
 func loopTag(v ssa.Value, l *core.Loop) string {
 	tag := fmt.Sprintf("loop:%s.%d", v.Parent().Name(), l.Header.Index)
 	loopByTag[tag] = l
@@ -49,6 +51,13 @@ func enclosingLoops(in ssa.Instruction) []*core.Loop {
 				}
 			}
 		}
+	} else if !enclosingBusy[fn] {
+		// a private helper (a goroutine body factored into a method): the loops around its call sites
+		enclosingBusy[fn] = true
+		for _, cs := range core.ClosureCallSites(fn) {
+			out = append(out, enclosingLoops(cs)...)
+		}
+		delete(enclosingBusy, fn)
 	}
 	return out
 }
@@ -253,7 +262,7 @@ func c05Blame2(c *c05ctx) {
 				if top == nil {
 					continue
 				}
-				for _, g := range core.WithClosures(top) {
+				for _, g := range unitFuncs(top) {
 					for _, b := range g.Blocks {
 						for _, in := range b.Instrs {
 							var culprits []ssa.Value
